@@ -85,7 +85,10 @@ Each is a realistic, NON-TRIVIAL refactoring (20-90 changed lines) of the functi
 5. standard-library replacements: `slices`, `maps`, `strings.Cut/Count/Fields/SplitSeq`, `strconv.AppendInt` into byte buffers, `strings.Builder`, `math.Ldexp`, `math/bits`, `cmp`, `min`/`max` builtins, unsigned-comparison range tests;
 6. generics: one generic helper replacing two or more near-duplicate functions (set operations, min/max selection, per-element conversion loops);
 7. moving checks between caller and callee: validation hoisted into a shared `validateXxx` helper returning `(parsed, error)` or `(value, ok)`, or pushed down into the constructor/parser, early returns replaced by nested conditionals or vice versa, recursion replaced by an explicit stack/loop or vice versa;
-8. data representation of intermediates: strings vs parsed integers, `[N]int64` arrays vs named fields, maps keyed by structs vs by strings, sets as `map[T]struct{{}}` vs sorted slices + `slices.Compact`, pre-sized slices filled by index and trimmed to the fill count.
+8. data representation of intermediates: strings vs parsed integers, `[N]int64` arrays vs named fields, maps keyed by structs vs by strings, sets as `map[T]struct{{}}` vs sorted slices + `slices.Compact`, pre-sized slices filled by index and trimmed to the fill count;
+9. concurrency that keeps results identical: worker goroutines with a `sync.WaitGroup` writing disjoint elements of a pre-sized slice, `sync.Once`-initialised read-only tables, `sync.Pool` for scratch buffers that are fully reset;
+10. control-flow reshaping: `goto`-free state machines, loop peeling (first element handled before the loop), loop inversion (do-while shape with a guard), sentinel elements, recursion unrolled into an explicit work list, early `continue` chains turned into one nested condition or vice versa, boolean flags replacing breaks, comparison of small structs or arrays (`a == b`) instead of field-by-field tests;
+11. arithmetic written differently but bit-identically for EVERY int64/float64 input (prove it in the notes): shifts vs multiplication by powers of two where no overflow difference exists, `x&(n-1)` vs `x%n` only where x is provably non-negative and n a power of two, `math.Ldexp` vs `math.Pow(2, n)`, `-(-x >> k)` style ceilings, `min`/`max` builtins for if-chains.
 Feel free to COMBINE two families in one change where that is natural (for example a value type whose methods use a table and return sentinel errors; an iterator closure feeding a generic helper), and to restructure across function boundaries (split one function into three, or inline helpers). Do not touch exported signatures. The property must hold exactly as before and the existing suite must pass.
 
 """ + brief[b:]
